@@ -19,6 +19,15 @@ package main
 //     race-enabled child; reports with frames in parser/ or interpreter/ are violations,
 //     absence of a race build is only noted.
 
+//  4. shared-ast streams (child process): ONE parsed and validated runtime tree (quoted strings
+//     with 1-3 interpolations at top level, in functions, loops, conditionals, try blocks; a
+//     FRESH tree every round, so whatever a runtime component keeps is cold) is evaluated for the
+//     first time by 2..16 goroutines released by a barrier, each with its own scope and thread
+//     id; sinks with interpolated strings are fired by parallel events on 2..16 workers.  Expected
+//     values come from a separate tree / a one-worker engine.  Oracles: the child is not dead
+//     ('fatal error: concurrent map ...'), every result equals the sequential one.  Sink rounds
+//     whose cascades do not finish in time are counted, never reported (not this property).
+
 import (
 	"bytes"
 	"encoding/json"
@@ -33,6 +42,7 @@ import (
 	"sync"
 	"time"
 
+	"github.com/krotik/ecal/engine"
 	"github.com/krotik/ecal/interpreter"
 	"github.com/krotik/ecal/parser"
 	"github.com/krotik/ecal/scope"
@@ -385,14 +395,41 @@ type c13streamResult struct {
 	IDs    int       `json:"ids"`
 }
 
+// shared-ast job: ONE validated runtime tree evaluated for the first time by several goroutines
+// at once (fresh tree every round: whatever a runtime component keeps is cold), and sinks with
+// interpolated strings fired by parallel events.
+type c13sharedJob struct {
+	Texts      []string `json:"texts"`
+	Sinks      []string `json:"sinks"` // sink bodies (statements)
+	Goroutines int      `json:"goroutines"`
+	Rounds     int      `json:"rounds"`
+	SinkRounds int      `json:"sink_rounds"`
+}
+
+type c13sharedDiff struct {
+	Kind string `json:"kind"` // eval | sink
+	Text string `json:"text"`
+	Want string `json:"want"`
+	Got  string `json:"got"`
+}
+
+type c13sharedResult struct {
+	Evals       int             `json:"evals"`
+	SinkEvents  int             `json:"sink_events"`
+	SinkSkipped int             `json:"sink_skipped"` // rounds whose cascade did not finish in time (not this property)
+	Diffs       []c13sharedDiff `json:"diffs"`
+}
+
 type c13job struct {
 	Forced []c13forcedCase `json:"forced,omitempty"`
 	Stream *c13streamJob   `json:"stream,omitempty"`
+	Shared *c13sharedJob   `json:"shared,omitempty"`
 }
 
 type c13jobOut struct {
 	Forced []c13forcedResult `json:"forced,omitempty"`
 	Stream *c13streamResult  `json:"stream,omitempty"`
+	Shared *c13sharedResult  `json:"shared,omitempty"`
 }
 
 // hook controller: controlled parses are identified by their source name
@@ -559,6 +596,162 @@ func c13stream(job *c13streamJob) *c13streamResult {
 	return res
 }
 
+// c13evalShared evaluates an already validated tree in a scope of its own.
+func c13evalTree(ast *parser.ASTNode, erp *interpreter.ECALRuntimeProvider, a float64) string {
+	vs := scope.NewScope(scope.GlobalScope)
+	vs.SetValue("a", a)
+	v, err := ast.Runtime.Eval(vs, make(map[string]interface{}), erp.NewThreadID())
+	if err != nil {
+		return "err:" + c13errClass(err)
+	}
+	return c13valString(v)
+}
+
+func c13parseValidate(text string, erp *interpreter.ECALRuntimeProvider) (*parser.ASTNode, error) {
+	ast, err := parser.ParseWithRuntime("shared", text, erp)
+	if err == nil {
+		err = ast.Runtime.Validate()
+	}
+	return ast, err
+}
+
+type c13logger struct {
+	sync.Mutex
+	lines []string
+}
+
+func (l *c13logger) add(p string, v ...interface{}) {
+	l.Lock()
+	l.lines = append(l.lines, p+fmt.Sprint(v...))
+	l.Unlock()
+}
+func (l *c13logger) LogError(v ...interface{}) { l.add("error: ", v...) }
+func (l *c13logger) LogInfo(v ...interface{})  { l.add("", v...) }
+func (l *c13logger) LogDebug(v ...interface{}) { l.add("debug: ", v...) }
+
+// c13sinkRound declares one sink with the given body in a fresh interpreter with `workers` pool
+// threads and fires n events at once (sequential: one after the other, waiting for each).
+// Returns the sorted log lines; ok=false if the cascades did not finish in time.
+func c13sinkRound(body string, workers, n int, sequential bool) ([]string, bool, error) {
+	lg := &c13logger{}
+	erp := interpreter.NewECALRuntimeProvider("c13-sink", &util.MemoryImportLocator{Files: c13imports}, lg)
+	defer erp.Cron.Stop()
+	erp.Processor = engine.NewProcessor(workers)
+	erp.Processor.SetFailOnFirstErrorInTriggerSequence(true)
+	script := "sink s1\n    kindmatch [ \"c13.a\" ]\n{\n" + body + "\n}\n"
+	if _, err := evalProgram("c13-sink", script, nil, erp); err != nil {
+		return nil, false, err
+	}
+	proc := erp.Processor
+	proc.Start()
+	var wg sync.WaitGroup
+	start := make(chan struct{})
+	finished := make(chan struct{}, n)
+	for i := 0; i < n; i++ {
+		ev := engine.NewEvent(fmt.Sprintf("e%d", i), []string{"c13", "a"}, map[interface{}]interface{}{"n": float64(i + 1)})
+		if sequential {
+			proc.AddEventAndWait(ev, nil)
+			finished <- struct{}{}
+			continue
+		}
+		rm := proc.NewRootMonitor(nil, nil)
+		rm.SetFinishHandler(func(p engine.Processor) { finished <- struct{}{} })
+		wg.Add(1)
+		go func() {
+			defer wg.Done()
+			<-start
+			proc.AddEvent(ev, rm)
+		}()
+	}
+	close(start)
+	wg.Wait()
+	ok := true
+	deadline := time.After(10 * time.Second)
+	for i := 0; i < n && ok; i++ {
+		select {
+		case <-finished:
+		case <-deadline:
+			ok = false
+		}
+	}
+	go proc.Finish()
+	lg.Lock()
+	lines := append([]string{}, lg.lines...)
+	lg.Unlock()
+	sort.Strings(lines)
+	return lines, ok, nil
+}
+
+func c13shared(job *c13sharedJob) *c13sharedResult {
+	res := &c13sharedResult{}
+	erp := c13newProvider("c13-shared-ast")
+	G := job.Goroutines
+	addDiff := func(d c13sharedDiff) {
+		if len(res.Diffs) < 8 {
+			res.Diffs = append(res.Diffs, d)
+		}
+	}
+	// expected values: a SEPARATE tree of the same text, evaluated by one goroutine
+	want := make([][]string, len(job.Texts))
+	for i, t := range job.Texts {
+		ast, err := c13parseValidate(t, erp)
+		want[i] = make([]string, G)
+		for g := 0; g < G; g++ {
+			if err != nil {
+				want[i][g] = "parse:" + c13errClass(err)
+			} else {
+				want[i][g] = c13evalTree(ast, erp, float64(1000+g))
+			}
+		}
+	}
+	for r := 0; r < job.Rounds; r++ {
+		i := r % len(job.Texts)
+		ast, err := c13parseValidate(job.Texts[i], erp) // fresh tree: nothing has evaluated it yet
+		if err != nil {
+			continue
+		}
+		got := make([]string, G)
+		var wg sync.WaitGroup
+		start := make(chan struct{})
+		for g := 0; g < G; g++ {
+			wg.Add(1)
+			go func(g int) {
+				defer wg.Done()
+				<-start
+				got[g] = c13evalTree(ast, erp, float64(1000+g))
+			}(g)
+		}
+		close(start)
+		wg.Wait()
+		res.Evals += G
+		for g := 0; g < G; g++ {
+			if got[g] != want[i][g] {
+				addDiff(c13sharedDiff{"eval", job.Texts[i], want[i][g], got[g]})
+				break
+			}
+		}
+	}
+	for r := 0; r < job.SinkRounds && len(job.Sinks) > 0; r++ {
+		body := job.Sinks[r%len(job.Sinks)]
+		n := 2 * G
+		exp, ok1, err := c13sinkRound(body, 1, n, true)
+		if err != nil {
+			addDiff(c13sharedDiff{"sink", body, "the sink script evaluates", "error " + c13errClass(err)})
+			continue
+		}
+		got, ok2, err := c13sinkRound(body, G, n, false)
+		if err != nil || !ok1 || !ok2 {
+			res.SinkSkipped++
+			continue
+		}
+		res.SinkEvents += n
+		if strings.Join(exp, "\n") != strings.Join(got, "\n") {
+			addDiff(c13sharedDiff{"sink", body, strings.Join(exp, " / "), strings.Join(got, " / ")})
+		}
+	}
+	return res
+}
+
 func c13child(jobFile string) error {
 	b, err := os.ReadFile(jobFile)
 	if err != nil {
@@ -575,6 +768,11 @@ func c13child(jobFile string) error {
 	}
 	if job.Stream != nil {
 		out.Stream = c13stream(job.Stream)
+		flush()
+		return nil
+	}
+	if job.Shared != nil {
+		out.Shared = c13shared(job.Shared)
 		flush()
 		return nil
 	}
@@ -709,6 +907,7 @@ type c13desc struct {
 	Mode   string         `json:"mode"` // forced | stream | race
 	Forced *c13forcedCase `json:"forced,omitempty"`
 	Stream *c13streamJob  `json:"stream,omitempty"`
+	Shared *c13sharedJob  `json:"shared,omitempty"`
 	Note   string         `json:"note,omitempty"`
 }
 
@@ -795,6 +994,7 @@ func c13runStream(c *Ctx, bin string, job c13streamJob, mode string) {
 	desc := c13desc{Mode: mode, Stream: &c13streamJob{Goroutines: job.Goroutines, Iterations: job.Iterations, Seed: job.Seed, Progs: nil}}
 	out, err, stderr := c13spawn(c, bin, c13job{Stream: &job}, mode, 300*time.Second)
 	c.Dist[mode+"_streams"]++
+	c.Count(fmt.Sprintf("%s-%d-%d-%d", mode, job.Goroutines, job.Iterations, len(job.Progs)), true, desc)
 	if strings.Contains(stderr, "fatal error: concurrent map") {
 		d := desc
 		d.Note = "child output: " + c13tail(stderr[strings.Index(stderr, "fatal error: concurrent map"):])
@@ -898,6 +1098,13 @@ func runC13(c *Ctx) error {
 		switch {
 		case d.Forced != nil:
 			c13runForced(c, bin, []c13forcedCase{*d.Forced})
+		case d.Shared != nil:
+			j := *d.Shared
+			if len(j.Texts) == 0 && len(j.Sinks) == 0 {
+				c13sharedStreams(c, bin)
+			} else {
+				c13runShared(c, bin, j, "shared")
+			}
 		case d.Stream != nil && len(d.Stream.Progs) > 0:
 			c13runStream(c, bin, *d.Stream, "stream")
 		default:
@@ -968,9 +1175,13 @@ func runC13(c *Ctx) error {
 	if !c.Enough() {
 		c13replayStreams(c, bin)
 	}
+	if !c.Enough() {
+		c13sharedStreams(c, bin)
+	}
 	if c.Thorough() || os.Getenv("C13_RACE") != "" {
 		if rbin, note := c13buildRace(c); rbin != "" {
 			c13runStream(c, rbin, c13streamJob{Progs: c13streamPool(c.Seed, 40), Goroutines: 8, Iterations: c.Pick(60, 1000), Seed: c.Seed}, "race")
+			c13runShared(c, rbin, c13sharedJob{Texts: c13sharedTexts(rand.New(rand.NewSource(c.Seed*13+5)), 24), Sinks: c13sinkBodies, Goroutines: 8, Rounds: c.Pick(100, 600), SinkRounds: c.Pick(3, 10)}, "race-shared")
 			os.Remove(rbin)
 		} else {
 			c.Notes = append(c.Notes, note)
@@ -999,6 +1210,117 @@ func c13streamPool(seed int64, n int) []c13prog {
 		}
 	}
 	return pool
+}
+
+// texts whose value is built from quoted strings with 1-3 interpolations (top level, in
+// functions, loops, conditionals, try blocks) and one wide literal; `a` comes from the scope.
+func c13sharedTexts(r *rand.Rand, n int) []string {
+	lit := func() string {
+		k := 1 + r.Intn(3)
+		var sb strings.Builder
+		sb.WriteString("\"")
+		for j := 0; j < k; j++ {
+			switch r.Intn(4) {
+			case 0:
+				fmt.Fprintf(&sb, "<{{a + %d}}>", r.Intn(50))
+			case 1:
+				fmt.Fprintf(&sb, "[{{a * %d}}]", 1+r.Intn(9))
+			case 2:
+				fmt.Fprintf(&sb, "({{ [a, %d][1] }})", r.Intn(50))
+			default:
+				fmt.Fprintf(&sb, "-{{a > %d}}-", 990+r.Intn(30))
+			}
+		}
+		sb.WriteString("\"")
+		return sb.String()
+	}
+	var wide strings.Builder
+	wide.WriteString("\"")
+	for j := 0; j < 12; j++ {
+		fmt.Fprintf(&wide, "<{{a + %d}}> ", j)
+	}
+	wide.WriteString("\"")
+	res := []string{"\"<{{a + 0}}> <{{a + 1}}> <{{a + 2}}>\"", wide.String()}
+	for len(res) < n {
+		switch r.Intn(6) {
+		case 0:
+			res = append(res, lit())
+		case 1:
+			res = append(res, "func f(x) {\n    return "+lit()+" + \"|x={{x}}\"\n}\nf(a) + f(a + 1)")
+		case 2:
+			res = append(res, "r := \"\"\nfor i in range(1, 3) {\n    r := r + "+lit()+" + \"i={{i}};\"\n}\nr")
+		case 3:
+			res = append(res, "x := \"n\"\nif a > 0 {\n    x := "+lit()+"\n} else {\n    x := "+lit()+"\n}\nx")
+		case 4:
+			res = append(res, "x := \"\"\ntry {\n    x := "+lit()+"\n    raise(\"E\", "+lit()+")\n} except e {\n    x := x + \"!{{e.detail}}\"\n}\nx")
+		default:
+			res = append(res, "[ "+lit()+", {\"k\" : "+lit()+"}, "+lit()+" ]")
+		}
+	}
+	return res
+}
+
+var c13sinkBodies = []string{
+	"    log(\"s1 n={{event.state.n}} m={{event.state.n + 1}}\")",
+	"    for i in range(1, 2) {\n        log(\"s1 {{event.name}} i={{i}} n={{event.state.n * 2}}\")\n    }",
+	"    func fmtev(e) {\n        return \"<{{e.state.n}}|{{e.kind}}>\"\n    }\n    log(fmtev(event), \" {{event.state.n + 10}}\")",
+}
+
+func c13runShared(c *Ctx, bin string, job c13sharedJob, mode string) {
+	desc := c13desc{Mode: mode, Shared: &c13sharedJob{Goroutines: job.Goroutines, Rounds: job.Rounds, SinkRounds: job.SinkRounds}}
+	out, err, stderr := c13spawn(c, bin, c13job{Shared: &job}, mode, 300*time.Second)
+	c.Dist[mode+"_streams"]++
+	c.Count(fmt.Sprintf("%s-%d-%d", mode, job.Goroutines, job.Rounds), true, desc)
+	if i := strings.Index(stderr, "fatal error: concurrent map"); i >= 0 {
+		d := desc
+		d.Note = "child output: " + c13tail(stderr[i:])
+		c.Violate("fatal-concurrent-map-shared-ast", fmt.Sprintf("one validated runtime tree evaluated for the first time by %d goroutines at once (or a sink fired by parallel events on %d workers): the process died with 'fatal error: concurrent map ...'", job.Goroutines, job.Goroutines), d)
+		return
+	}
+	if mode == "race-shared" {
+		races := c13raceReports(filepath.Join(c.Out, "child"), "race-"+mode)
+		if len(races) > 0 {
+			d := desc
+			d.Note = races[0]
+			c.Violate("data-race-shared-ast", fmt.Sprintf("race detector: %d report(s) with frames in parser/ or interpreter/ while one runtime tree is evaluated by %d goroutines", len(races), job.Goroutines), d)
+		}
+		c.Dist["race_shared_reports_in_parser_or_interpreter"] += len(races)
+	}
+	if out.Shared == nil {
+		if mode == "race-shared" {
+			c.Notes = append(c.Notes, fmt.Sprintf("race-enabled shared-ast child gave no result (%v); supporting evidence only", err))
+			return
+		}
+		c.Violate("shared-ast-child-failed", fmt.Sprintf("the child evaluating shared trees with %d goroutines died: %v %s", job.Goroutines, err, c13tail(stderr)), desc)
+		return
+	}
+	c.Evals += out.Shared.Evals + out.Shared.SinkEvents
+	c.Dist[mode+"_evals"] += out.Shared.Evals
+	c.Dist[mode+"_sink_events"] += out.Shared.SinkEvents
+	c.Dist[mode+"_sink_rounds_not_finished"] += out.Shared.SinkSkipped
+	for _, d := range out.Shared.Diffs {
+		dd := desc
+		dd.Shared = &c13sharedJob{Goroutines: job.Goroutines, Rounds: job.Rounds, SinkRounds: job.SinkRounds}
+		if d.Kind == "sink" {
+			dd.Shared.Sinks = []string{d.Text}
+			dd.Shared.Rounds = 0
+		} else {
+			dd.Shared.Texts = []string{d.Text}
+			dd.Shared.SinkRounds = 0
+		}
+		dd.Note = fmt.Sprintf("alone: %.200s ; concurrently: %.200s", d.Want, d.Got)
+		c.Violate("shared-ast-result-differs", fmt.Sprintf("a %s evaluated by %d goroutines at once gave a different result than alone", map[string]string{"eval": "validated runtime tree", "sink": "sink fired by parallel events"}[d.Kind], job.Goroutines), dd)
+	}
+}
+
+func c13sharedStreams(c *Ctx, bin string) {
+	texts := c13sharedTexts(rand.New(rand.NewSource(c.Seed*13+5)), c.Pick(24, 80))
+	for _, g := range []int{2, 4, 8, 16} {
+		if c.Enough() {
+			return
+		}
+		c13runShared(c, bin, c13sharedJob{Texts: texts, Sinks: c13sinkBodies, Goroutines: g, Rounds: c.Pick(1500, 12000), SinkRounds: c.Pick(6, 40)}, "shared")
+	}
 }
 
 func c13replayStreams(c *Ctx, bin string) {
